@@ -512,3 +512,41 @@ StandIn("C20/filters-and-moments", "C20",
         "{1e-3,1,1600,1e7} in seeded order on the same series: cycle+trend, HP optimality residual against a dense "
         "reference (tolerance scaled by the condition number), the three derived filters against their definitions, "
         "18 finite moments", "lengths up to 2000", _c20_cases, _c20_check)
+
+
+def _c08n_cases(tier, seed):
+    rnd = random.Random(seed + 88)
+    for i in range(24 if tier == "quick" else 400):
+        yield {"rs": rnd.randrange(10 ** 9), "which": ["msm_iv", "msm_iv_mean", "msm_id", "mink", "fourier"][i % 5],
+               "level": rnd.choice([1e3, 1e5, 1e7]), "eps": rnd.choice([1e-2, 1e-3, 1e-5])}
+
+
+def _mean_only(x):
+    return np.array([np.mean(x)])
+
+
+def _c08n_check(reg, case):
+    """Non-negativity on ill-conditioned data: series at a large level with tiny fluctuations (the algebraically equal
+    one-pass variance formula cancels catastrophically there)."""
+    from black_it.loss_functions.msm import MethodOfMomentsLoss
+    rng = np.random.default_rng(case["rs"])
+    E, N = 6, 30
+    real = case["level"] + case["eps"] * rng.standard_normal((N, 1))
+    sim = case["level"] + case["eps"] * rng.standard_normal((E, N, 1)) + case["eps"] * rng.standard_normal()
+    with warnings.catch_warnings():
+        warnings.simplefilter("ignore")
+        if case["which"] == "msm_iv_mean":
+            L = MethodOfMomentsLoss(covariance_mat="inverse_variance", moment_calculator=_mean_only)
+        else:
+            L = _mk_loss(case["which"], None, None)
+        v = L.compute_loss(sim, real)
+    if np.isfinite(v) and v < 0:
+        return (f"{case['which']}: negative value {v!r} on series at level {case['level']:g} with fluctuations "
+                f"{case['eps']:g} (generator seed {case['rs']})")
+    return None
+
+
+StandIn("C08/non-negative-ill-conditioned", "C08",
+        "24 seeded near-constant data sets (level 1e3-1e7, fluctuations 1e-2..1e-5, 6 members x 30 steps) through the "
+        "identity / inverse-variance method of moments (default and mean-only moments), Minkowski and Fourier losses: "
+        "no finite negative value", "400 data sets", _c08n_cases, _c08n_check)
